@@ -1,0 +1,236 @@
+//go:build verif
+
+package nsqd
+
+import (
+	"fmt"
+	"strconv"
+	"sync/atomic"
+	"time"
+)
+
+// Verification hooks for the timeout / delay property (C04): direct access to the
+// in-flight priority queue, to a channel's deadline heaps and maps, and to the two scan
+// functions with a caller-chosen time.  Nothing here is reachable without the verif tag.
+
+// VerifPQEntry is one slot of a queue array: the priority, the index back-pointer stored
+// in the object the slot points to, and a handle identifying that object.
+type VerifPQEntry struct {
+	Pri    int64
+	Index  int
+	Handle int64
+}
+
+// ---------------------------------------------------------------- raw inFlightPqueue
+
+// VerifIFPQ wraps a real inFlightPqueue; every pushed *Message carries its handle in
+// clientID.
+type VerifIFPQ struct {
+	pq inFlightPqueue
+}
+
+func NewVerifIFPQ(capacity int) *VerifIFPQ {
+	return &VerifIFPQ{pq: newInFlightPqueue(capacity)}
+}
+
+func verifGuard(f func()) (panicked bool) {
+	defer func() {
+		if r := recover(); r != nil {
+			panicked = true
+		}
+	}()
+	f()
+	return false
+}
+
+func (v *VerifIFPQ) Push(pri, handle int64) (panicked bool) {
+	return verifGuard(func() { v.pq.Push(&Message{pri: pri, clientID: handle}) })
+}
+
+func (v *VerifIFPQ) Pop() (handle int64, index int, panicked bool) {
+	panicked = verifGuard(func() {
+		m := v.pq.Pop()
+		handle, index = m.clientID, m.index
+	})
+	return
+}
+
+func (v *VerifIFPQ) Remove(i int) (handle int64, index int, panicked bool) {
+	panicked = verifGuard(func() {
+		m := v.pq.Remove(i)
+		handle, index = m.clientID, m.index
+	})
+	return
+}
+
+// PeekAndShift returns found=false when the queue returned nil.
+func (v *VerifIFPQ) PeekAndShift(max int64) (found bool, handle int64, index int, diff int64, panicked bool) {
+	panicked = verifGuard(func() {
+		m, d := v.pq.PeekAndShift(max)
+		diff = d
+		if m != nil {
+			found, handle, index = true, m.clientID, m.index
+		}
+	})
+	return
+}
+
+// SetPri overwrites the priority of the object in a slot without restoring heap order.
+func (v *VerifIFPQ) SetPri(slot int, pri int64) { v.pq[slot].pri = pri }
+
+func (v *VerifIFPQ) Dump() (entries []VerifPQEntry, capacity int) {
+	for _, m := range v.pq {
+		entries = append(entries, VerifPQEntry{Pri: m.pri, Index: m.index, Handle: m.clientID})
+	}
+	return entries, cap(v.pq)
+}
+
+// ---------------------------------------------------------------- channels
+
+func verifID(handle int64) MessageID {
+	var id MessageID
+	copy(id[:], fmt.Sprintf("%016x", uint64(handle)))
+	return id
+}
+
+func verifHandle(id MessageID) int64 {
+	v, err := strconv.ParseUint(string(id[:]), 16, 64)
+	if err != nil {
+		return -1
+	}
+	return int64(v)
+}
+
+// VerifHandleOfID converts a message id (16 hex characters) to the handle used in dumps.
+func VerifHandleOfID(id MessageID) int64 { return verifHandle(id) }
+
+// VerifStartInFlight creates a message and calls the real StartInFlightTimeout.
+func (c *Channel) VerifStartInFlight(handle, clientID int64, timeout time.Duration) (deliveryTS, pri int64, err error) {
+	msg := NewMessage(verifID(handle), []byte("v"))
+	err = c.StartInFlightTimeout(msg, clientID, timeout)
+	return msg.deliveryTS.UnixNano(), msg.pri, err
+}
+
+// VerifStartDeferred creates a message and calls the real StartDeferredTimeout between
+// two clock readings.
+func (c *Channel) VerifStartDeferred(handle int64, timeout time.Duration) (t0, t1 int64, err error) {
+	msg := NewMessage(verifID(handle), []byte("v"))
+	t0 = time.Now().UnixNano()
+	err = c.StartDeferredTimeout(msg, timeout)
+	t1 = time.Now().UnixNano()
+	return
+}
+
+// VerifTouch calls the real TouchMessage between two clock readings.
+func (c *Channel) VerifTouch(handle, clientID int64, msgTimeout time.Duration) (t0, t1 int64, err error) {
+	t0 = time.Now().UnixNano()
+	err = c.TouchMessage(clientID, verifID(handle), msgTimeout)
+	t1 = time.Now().UnixNano()
+	return
+}
+
+// VerifFinish / VerifRequeue call the real FinishMessage / RequeueMessage.
+func (c *Channel) VerifFinish(handle, clientID int64) error {
+	return c.FinishMessage(clientID, verifID(handle))
+}
+
+func (c *Channel) VerifRequeue(handle, clientID int64, timeout time.Duration) (t0, t1 int64, err error) {
+	t0 = time.Now().UnixNano()
+	err = c.RequeueMessage(clientID, verifID(handle), timeout)
+	t1 = time.Now().UnixNano()
+	return
+}
+
+// VerifShiftDelivery moves an in-flight message's deliveryTS into the past by delta:
+// the same as delta having elapsed since delivery.
+func (c *Channel) VerifShiftDelivery(handle int64, delta time.Duration) bool {
+	c.inFlightMutex.Lock()
+	defer c.inFlightMutex.Unlock()
+	msg, ok := c.inFlightMessages[verifID(handle)]
+	if !ok {
+		return false
+	}
+	msg.deliveryTS = msg.deliveryTS.Add(-delta)
+	return true
+}
+
+// VerifMsgEntry describes one in-flight message.
+type VerifMsgEntry struct {
+	Handle     int64
+	ClientID   int64
+	DeliveryTS int64
+	Pri        int64
+	Index      int
+}
+
+// VerifInFlight dumps the in-flight heap in array order, the in-flight map and the
+// heap's capacity.
+func (c *Channel) VerifInFlight() (heap []VerifPQEntry, byID map[int64]VerifMsgEntry, capacity int) {
+	c.inFlightMutex.Lock()
+	defer c.inFlightMutex.Unlock()
+	for _, m := range c.inFlightPQ {
+		heap = append(heap, VerifPQEntry{Pri: m.pri, Index: m.index, Handle: verifHandle(m.ID)})
+	}
+	byID = make(map[int64]VerifMsgEntry, len(c.inFlightMessages))
+	for id, m := range c.inFlightMessages {
+		byID[verifHandle(id)] = VerifMsgEntry{Handle: verifHandle(id), ClientID: m.clientID,
+			DeliveryTS: m.deliveryTS.UnixNano(), Pri: m.pri, Index: m.index}
+	}
+	return heap, byID, cap(c.inFlightPQ)
+}
+
+// VerifDeferred dumps the deferred heap in array order, the ids in the deferred map and
+// the heap's capacity.
+func (c *Channel) VerifDeferred() (heap []VerifPQEntry, ids map[int64]int64, capacity int) {
+	c.deferredMutex.Lock()
+	defer c.deferredMutex.Unlock()
+	for _, it := range c.deferredPQ {
+		heap = append(heap, VerifPQEntry{Pri: it.Priority, Index: it.Index, Handle: verifHandle(it.Value.(*Message).ID)})
+	}
+	ids = make(map[int64]int64, len(c.deferredMessages))
+	for id, it := range c.deferredMessages {
+		ids[verifHandle(id)] = it.Priority
+	}
+	return heap, ids, cap(c.deferredPQ)
+}
+
+// VerifProcessInFlight / VerifProcessDeferred run the real scan functions at time t.
+func (c *Channel) VerifProcessInFlight(t int64) bool { return c.processInFlightQueue(t) }
+func (c *Channel) VerifProcessDeferred(t int64) bool { return c.processDeferredQueue(t) }
+
+// VerifDrainMemory takes every message currently in the channel's memory queue, in
+// order (only meaningful while the channel has no consumer).
+func (c *Channel) VerifDrainMemory() (handles []int64) {
+	for {
+		select {
+		case m := <-c.memoryMsgChan:
+			handles = append(handles, verifHandle(m.ID))
+		default:
+			return
+		}
+	}
+}
+
+// VerifClientInfo is the flow-control state of one subscribed client.
+type VerifClientInfo struct {
+	ID         int64
+	ReadyCount int64
+	MsgTimeout time.Duration
+}
+
+func (c *Channel) VerifClients() (out []VerifClientInfo) {
+	c.RLock()
+	defer c.RUnlock()
+	for id, cl := range c.clients {
+		if v2, ok := cl.(*clientV2); ok {
+			v2.writeLock.RLock()
+			mt := v2.MsgTimeout
+			v2.writeLock.RUnlock()
+			out = append(out, VerifClientInfo{ID: id, ReadyCount: atomic.LoadInt64(&v2.ReadyCount), MsgTimeout: mt})
+		}
+	}
+	return
+}
+
+// VerifMsToDuration is the real msToDuration.
+func VerifMsToDuration(ms uint64) int64 { return int64(msToDuration(ms)) }
